@@ -42,7 +42,9 @@ def synset_probability(synset: Synset, freq: Freq) -> float:
     through :func:`information_content`.
 
     """
-    pos_freq = freq[synset.pos]
+    # satellite adjectives are counted with adjectives (see compute())
+    pos = ADJ if synset.pos == ADJ_SAT else synset.pos
+    pos_freq = freq[pos]
     return pos_freq[synset.id] / pos_freq[None]
 
 
